@@ -112,4 +112,20 @@ def Chain : Nat → List Step → Prop
   | _, [] => True
   | m, s :: t => m ≤ s.lo ∧ s.lo ≤ s.hi ∧ Chain s.hi t
 
+
+/-- what a conversion step must satisfy (**GadgetExact**, abstract form), relative to a global domain predicate `Dom`
+(variable bounds/types respected): the delivered rows imply the stored context's reading of `res = f(args)`;
+from an exact value the rows can be satisfied by choosing the auxiliary variables (indices `≥ lo`);
+the rows read only variables below `hi`. -/
+def StepOK (N : Nat) (Dom : Asg → Prop) (s : Step) : Prop :=
+  N ≤ s.lo ∧
+  (∀ y, Dom y → s.Deliv y → rel s.ctx (y s.res) (s.f.val y)) ∧
+  (∀ z, Dom z → z s.res = s.f.val z → ∃ z', (∀ v, v < s.lo → z' v = z v) ∧ s.Deliv z') ∧
+  (∀ y y', (∀ v, v < s.hi → y' v = y v) → s.Deliv y → s.Deliv y')
+
+/-- the delivered model: shared variables keep their values, the solver's assignment respects the variable
+domains, every step's rows hold, the root constraints hold -/
+def Delivered (N : Nat) (defs : List Def) (steps : List Step) (roots : List Root) (Dom : Asg → Prop) (x y : Asg) : Prop :=
+  (∀ v, v < N → (∀ d ∈ defs, d.res ≠ v) → y v = x v) ∧ Dom y ∧ (∀ s ∈ steps, s.Deliv y) ∧ (∀ r ∈ roots, r.sat y)
+
 end MpVerif.C01
